@@ -1981,45 +1981,47 @@ class TagNode(_ElementWrappingNode, NodeBase):
                 "node."
             )
 
-        super().detach()
+        # the child nodes' positions must not change through merged text nodes
+        with _wrapper_cache:
+            super().detach()
 
-        parent_has_default_namespace = False
-        if parent is None:
-            parent_namespaces = None
-        else:
-            parent_namespaces = parent._etree_obj.nsmap
-            if None in parent_namespaces:
-                parent_has_default_namespace = True
+            parent_has_default_namespace = False
+            if parent is None:
+                parent_namespaces = None
+            else:
+                parent_namespaces = parent._etree_obj.nsmap
+                if None in parent_namespaces:
+                    parent_has_default_namespace = True
 
-        if not (parent_has_default_namespace or retain_child_nodes):
-            return self
+            if not (parent_has_default_namespace or retain_child_nodes):
+                return self
 
-        child_nodes = tuple(self.iterate_children())
-        for child_node in child_nodes:
-            child_node.detach()
+            child_nodes = tuple(self.iterate_children())
+            for child_node in child_nodes:
+                child_node.detach()
 
-        # workaround to keep a default namespace:
-        if parent_has_default_namespace:
-            _wrapper_cache.wrappers.pop(self._etree_obj)
-            assert isinstance(parent, TagNode)
-            self._etree_obj = parent._etree_obj.makeelement(
-                etree.QName(self._etree_obj),
-                attrib=dict(self._etree_obj.attrib),  # type: ignore
-                # TODO https://github.com/lxml/lxml-stubs/issues/62
-                nsmap=parent_namespaces,  # type: ignore
-            )
-            self._attributes._attributes.clear()
-            self._attributes._etree_attrib = self._etree_obj.attrib
-            self._attributes._node = self
-            _wrapper_cache.wrappers[self._etree_obj] = self
-
-        if retain_child_nodes:
-            if child_nodes:
+            # workaround to keep a default namespace:
+            if parent_has_default_namespace:
+                _wrapper_cache.wrappers.pop(self._etree_obj)
                 assert isinstance(parent, TagNode)
-                assert isinstance(index, int)
-                parent.insert_children(index, *child_nodes)
-        else:
-            self.append_children(*child_nodes)
+                self._etree_obj = parent._etree_obj.makeelement(
+                    etree.QName(self._etree_obj),
+                    attrib=dict(self._etree_obj.attrib),  # type: ignore
+                    # TODO https://github.com/lxml/lxml-stubs/issues/62
+                    nsmap=parent_namespaces,  # type: ignore
+                )
+                self._attributes._attributes.clear()
+                self._attributes._etree_attrib = self._etree_obj.attrib
+                self._attributes._node = self
+                _wrapper_cache.wrappers[self._etree_obj] = self
+
+            if retain_child_nodes:
+                if child_nodes:
+                    assert isinstance(parent, TagNode)
+                    assert isinstance(index, int)
+                    parent.insert_children(index, *child_nodes)
+            else:
+                self.append_children(*child_nodes)
 
         return self
 
